@@ -243,30 +243,16 @@ def l1_lock_order(ctx, rep):
     ra = _ra(ctx)
     rep.check(not ra.incomplete, R, "call-graphs-complete", "", "%d role-rooted call graphs built completely (%d nodes)" % (ra.graphs, ra.nodes), "call graphs truncated: %s" % ra.incomplete[:3])
     rep.floor(R, "role entry points analysed", ra.graphs, 40)
-    g = {}
+    from rules.controls import find_cycles
     info = {}
     for a, b, where, role, detail in ra.edges:
-        g.setdefault(a, set()).add(b)
         info.setdefault((a, b), (where, detail))
-    # self edges
-    for (a, b), (where, detail) in sorted(info.items()):
-        if a == b:
-            rep.bad(R, "re-entrant-lock:%s" % a, where, "%s is acquired while already held (std Mutex is not re-entrant): %s" % (a, detail))
-    # cycles (Tarjan-free: DFS from every node, small graph)
-    cyc = set()
-    nodes = set(g) | {b for v in g.values() for b in v}
-    for start in sorted(nodes):
-        stack = [(start, [start])]
-        while stack:
-            x, path = stack.pop()
-            for y in g.get(x, ()):
-                if y == start and len(path) > 1:
-                    c = path[:]
-                    i = c.index(min(c))
-                    cyc.add(tuple(c[i:] + c[:i]))
-                elif y not in path and len(path) < 8:
-                    stack.append((y, path + [y]))
-    for c in sorted(cyc):
+    selfs, cyc = find_cycles(list(info.keys()))
+    nodes = {a for a, b in info} | {b for a, b in info}
+    for a in selfs:
+        where, detail = info[(a, a)]
+        rep.bad(R, "re-entrant-lock:%s" % a, where, "%s is acquired while already held (std Mutex is not re-entrant): %s" % (a, detail))
+    for c in cyc:
         pairs = list(zip(c, c[1:] + (c[0],)))
         rep.bad(R, "lock-order-cycle:%s" % "->".join(c), info[pairs[0]][0], "locks are taken in inconsistent orders: " + " ; ".join("%s (%s)" % (info[p][1], info[p][0]) for p in pairs))
     for (a, b), (where, detail) in sorted(info.items()):
